@@ -193,6 +193,14 @@ def _r3(model, res):
                           'item == value); got %s' % why, func='parse_criteria')
     res.floor('criteria predicate traces', n, 6)
     for need in ('wildcard', 'operator', 'equality'):
+        if need not in kinds and need == 'wildcard':
+            verdict, why = _regex_wildcards(model, m, f)
+            res.ob('R3', 'parse_criteria', 'wildcard criteria are matched in full', verdict is not False, why)
+            if verdict is False:
+                res.violation('R3', '%s:parse_criteria:wildcard-prefix-match' % m.name, m.where(f),
+                              'wildcard criteria are matched with a hand-built regular expression and %s: a cell only has to *start* with the '
+                              'pattern (criterion "ap?" also selects "apple")' % why, func='parse_criteria')
+            continue
         res.ob('R3', 'parse_criteria', 'a %s predicate trace exists' % need, need in kinds)
         if need not in kinds:
             res.violation('R3', '%s:parse_criteria:%s-missing' % (m.name, need), m.where(f),
@@ -348,3 +356,29 @@ def _r7(model, res):
                 if not ok:
                     res.violation('R7', 'function:LARGE:index', m.where(f),
                                   'LARGE must address the sorted items with -n for n >= 1; the subscript is %r and can reach %s' % (idx, mx), func=f.name)
+
+
+def _regex_wildcards(model, m, f):
+    """Wildcard criteria implemented with a regular expression instead of fnmatch: True = matched in full,
+    False = prefix match, None = undecided."""
+    from ..callgraph import CallGraph
+    funcs = [f] + [g for q, g in m.functions.items() if '.' not in q and any(
+        isinstance(n, ast.Call) and isinstance(n.func, ast.Name) and n.func.id == q for n in ast.walk(f))]
+    uses_fullmatch = uses_match = False
+    anchored = False
+    for g in funcs:
+        for n in ast.walk(g):
+            if isinstance(n, ast.Call) and isinstance(n.func, ast.Attribute):
+                if n.func.attr == 'fullmatch':
+                    uses_fullmatch = True
+                if n.func.attr in ('match', 'search') and not (isinstance(n.func.value, ast.Name) and n.func.value.id.isupper()):
+                    uses_match = True
+                if n.func.attr == 'translate' and 'fnmatch' in src(n.func.value):
+                    anchored = True
+            if isinstance(n, ast.Constant) and isinstance(n.value, str) and (n.value.endswith('$') or n.value.endswith('\\Z')) and len(n.value) <= 4:
+                anchored = True
+    if uses_fullmatch or anchored:
+        return True, 'regular expression matched with fullmatch / an explicit end anchor'
+    if uses_match:
+        return False, 'applied with match()/search() without an end anchor'
+    return None, 'no wildcard predicate recognised'
